@@ -77,6 +77,9 @@ func genConCfg(r *rng, workload string, tier string) ConCfg {
 	if raceEnabled {
 		c.MaxSteps = 400_000
 	}
+	if workload == "logwrap" {
+		c.MaxSteps = 2_000_000
+	}
 	return c
 }
 
@@ -547,6 +550,9 @@ func (cr *ConRun) run() {
 }
 
 func workloadFor(prop string, r *rng) string {
+	if w := os.Getenv("VERIF_FORCE_WORKLOAD"); w != "" {
+		return w
+	}
 	switch prop {
 	case "C12":
 		if r.Chance(0.6) {
@@ -556,8 +562,14 @@ func workloadFor(prop string, r *rng) string {
 	case "C09":
 		return "c12b"
 	case "C08":
+		if r.Chance(0.02) {
+			return "logwrap"
+		}
 		return "txnwal"
 	case "C04", "C05", "C03":
+		if r.Chance(0.004) {
+			return "logwrap"
+		}
 		return "txn"
 	case "C16":
 		return "lock"
@@ -566,6 +578,9 @@ func workloadFor(prop string, r *rng) string {
 	case "C13":
 		return "bpm"
 	case "C19":
+		if r.Chance(0.03) {
+			return "logwrap"
+		}
 		return []string{"c12a", "c12b", "txn", "index"}[r.Intn(4)]
 	}
 	return "c12a"
@@ -731,6 +746,8 @@ func (cr *ConRun) runOther() {
 		cr.runLock()
 	case "bpm":
 		cr.runBpm()
+	case "logwrap":
+		cr.runLogWrap()
 	default:
 		cr.SetupErr = "workload " + cr.Cfg.Workload + " not implemented"
 	}
@@ -761,9 +778,11 @@ func (cr *ConRun) runTxn() {
 	nTxn := cfg.Clients
 	wal := cfg.Workload == "txnwal"
 	var progs []TxnProg
+	duel := false
 	if !wal && wr.Chance(0.25) {
 		progs = genDuel(wr, rows, &tok, wr.Chance(0.3))
 		nTxn = 2
+		duel = true
 		cr.stat("txn_duel_runs", 1)
 	} else {
 		progs = genProgs(wr, nTxn, rows, &tok, &nk, !wal && wr.Chance(0.3))
@@ -823,6 +842,11 @@ func (cr *ConRun) runTxn() {
 		}
 		if wr.Chance(0.5) {
 			s.RefreshStats()
+		}
+		if duel {
+			simrt.S.ArmPCT(300)
+		} else {
+			simrt.S.ArmPCT(int64(300 * nTxn))
 		}
 		var tasks []*simrt.Task
 		for i := 0; i < nTxn; i++ {
@@ -957,6 +981,10 @@ func (cr *ConRun) runTxn() {
 	}
 	for _, h := range hist {
 		cr.stat("txn:"+h.Outcome, 1)
+	}
+	if hasDupKeys(final) {
+		cr.stat("inconclusive_duplicate_keys_by_concurrent_reinsert", 1)
+		return
 	}
 	o := newOracle(rows, hist, false)
 	cr.Viol = append(cr.Viol, o.c04()...)
